@@ -16,20 +16,46 @@ def only(*names):
 
 
 PROPERTIES = {
+    "C01": {
+        "rt": ["rt.logic:c01_encoding"],
+        "level": "other",
+        "assumptions": S_ALL + ["A-rs1: rows produced by puan_rspy.TheoryPy.to_ge_polyhedron (compiled Rust) are not under contract"],
+        "explanation": "bounded stand-in only so far (end-to-end agreement of the produced polyhedron with evaluation)",
+    },
+    "C02": {
+        "rt": ["rt.logic:c02_solutions"],
+        "level": "other",
+        "assumptions": S_ALL + ["A-rs1"],
+        "explanation": "bounded stand-in only so far (all integer points of small polyhedra of safe models)",
+    },
+    "C03": {
+        "harness_modules": ["contracts.assume"],
+        "harness_filter": only("AtLeast.assume", "variable.assume", "variable.evaluate", "lemma.ival_wf", "lemma.total_const"),
+        "rt": ["rt.logic:c03_evaluate_glue"],
+        "level": "other",
+        "assumptions": S_ALL,
+        "explanation": "deductive: assume/post.bounds (the bounds assume() returns are ival, for every child count and value form), "
+                       "variable.assume/evaluate, lemma.total_const (total interpretation => ival == truth function with the "
+                       "override clause). bounded stand-in: evaluate()/evaluate_propositions() glue (dict(zip(flatten...)))",
+    },
     "C04": {
         "harness_modules": ["contracts.c04", "contracts.c05"],
-        "level": "proof",
+        "rt": ["rt.logic:c04_json_and_rules"],
+        "level": "other",
         "assumptions": S_ALL + ["children of a node are pairwise distinct under (hash, ==) (validated models: no node lists a child twice)"],
-        "explanation": "All/Any/AtLeast/AtMost/Xor/XNor/Imply/Not constructors (real source) over an abstract duplicate-free child "
-                       "list with 0/1 truth values: truth function of the built node == documented connective; nesting by "
-                       "the modular argument (negate's contract from C05 for Imply/Not/XNor).",
+        "explanation": "deductive: All/Any/AtLeast/AtMost/Xor/XNor/Imply/Not constructors (real source) over an abstract duplicate-free "
+                       "child list with 0/1 truth values: truth function of the built node == documented connective; nesting by "
+                       "the modular argument (negate's contract from C05 for Imply/Not/XNor). bounded stand-in: the JSON and "
+                       "rule-dictionary (from_cicJE) routes.",
     },
-    "C08": {
-        "harness_modules": ["contracts.reduce"],
+    "C05": {
+        "harness_modules": ["contracts.c05"],
+        "rt": ["rt.logic:c05_negation_e2e"],
         "level": "proof",
-        "assumptions": S_ALL + ["lemma.refine (proved in contracts.assume) is used as a fact about compound children"],
-        "explanation": "AtLeast.reduce (real source): post.bounds / post.meaning (ival(reduce(self), e) == ival(self, e) for every "
-                       "in-bounds interpretation e of leaves) / post.noconst / id / invariant, for every child count.",
+        "assumptions": S_ALL,
+        "explanation": "AtLeast.negate (real source) executed symbolically per path x sign x generated_id over an abstract "
+                       "child list of any length; postconditions complement/safe/id proved with the callee contract as "
+                       "induction hypothesis on compound children. (An end-to-end runtime check through evaluate() runs as well.)",
     },
     "C06": {
         "harness_modules": ["contracts.assume", "contracts.flags"],
@@ -48,12 +74,43 @@ PROPERTIES = {
         "explanation": "AtLeast.assume / variable.assume (real source) against post.c07: for every further interpretation e of "
                        "the remaining leaves, ival(assume(d), e) == ival(self, d|e); plus the spec lemmas it uses.",
     },
-    "C05": {
-        "harness_modules": ["contracts.c05"],
+    "C08": {
+        "harness_modules": ["contracts.reduce"],
         "level": "proof",
-        "assumptions": S_ALL,
-        "explanation": "AtLeast.negate (real source) executed symbolically per path x sign x generated_id over an abstract "
-                       "child list of any length; postconditions complement/safe/id proved with the callee contract as "
-                       "induction hypothesis on compound children.",
+        "assumptions": S_ALL + ["lemma.refine (proved in contracts.assume) is used as a fact about compound children"],
+        "explanation": "AtLeast.reduce (real source): post.bounds / post.meaning (ival(reduce(self), e) == ival(self, e) for every "
+                       "in-bounds interpretation e of leaves) / post.noconst / id / invariant, for every child count.",
     },
+    "C09": {
+        "rt": ["rt.config:c09_purity", "rt.config:c09_configurator_cache"],
+        "level": "other",
+        "assumptions": S_ALL,
+        "explanation": "bounded stand-in only so far: deep snapshots around sequences of public calls, two-configurator cache scenario",
+    },
+    "C10": {
+        "rt": ["rt.logic:c10_validation"],
+        "level": "other",
+        "assumptions": S_ALL,
+        "explanation": "bounded stand-in only so far: adversarial id/bounds palettes in both directions",
+    },
+    "C11": {"rt": ["rt.arrays:c11_reduce"], "level": "other", "assumptions": S_ALL,
+            "explanation": "bounded stand-in only so far: matrices up to 3x3 against brute-force solution sets"},
+    "C12": {"rt": ["rt.arrays:c12_tighten"], "level": "other", "assumptions": S_ALL,
+            "explanation": "bounded stand-in only so far: matrices up to 3x3 against brute-force solution sets"},
+    "C13": {"rt": ["rt.arrays:c13_compress"], "level": "other", "assumptions": S_ALL + ["A-rs2: py_optimized_bit_allocation_64 (compiled Rust) is not under contract"],
+            "explanation": "bounded stand-in only"},
+    "C14": {"rt": ["rt.config:c14_objectives"], "level": "other", "assumptions": S_ALL + ["A-rs2"],
+            "explanation": "bounded stand-in only so far: all pairs of feasible points of small configurators"},
+    "C15": {"rt": ["rt.config:c15_bridge"], "level": "other", "assumptions": S_ALL,
+            "explanation": "bounded stand-in only so far: recording and exact solvers"},
+    "C16": {"rt": ["rt.logic:c16_json_roundtrip", "rt.config:c16_configurator_json"], "level": "other", "assumptions": S_ALL,
+            "explanation": "bounded stand-in only so far"},
+    "C17": {"rt": ["rt.config:c17_b64"], "level": "other", "assumptions": S_ALL + ["A-pickle"],
+            "explanation": "bounded stand-in only so far"},
+    "C18": {"rt": ["rt.config:c18_add"], "level": "other", "assumptions": S_ALL,
+            "explanation": "bounded stand-in only so far"},
+    "C19": {"rt": ["rt.arrays:c19_points"], "level": "other", "assumptions": S_ALL,
+            "explanation": "bounded stand-in only so far"},
+    "C20": {"rt": ["rt.arrays:c20_bridges"], "level": "other", "assumptions": S_ALL,
+            "explanation": "bounded stand-in only so far"},
 }
